@@ -1007,3 +1007,18 @@ Proof.
   - destruct Ho as [Hp Ho]. left. rewrite Ho. auto.
   - destruct Ho as [Hp Ho]. right. rewrite Ho. auto.
 Qed.
+
+(* ================================================================== example data used by props/C09.v and props/C10.v *)
+Definition c10_ex_info : cinfo :=
+  mkInfo 12 (mkTxt 1 12 false) (mkTxt 2 29 true) None None None (Some (mkRoy 18 50000000000000000)).
+Definition c10_ex_t0 : N := 1647032401000000000.
+Definition c10_ex_s0 : state :=
+  mkSt [] 0 [] (mkOwn (Some 10) None None) c10_ex_info false c10_ex_t0 false false.
+Definition c10_ex_upd (share : N) : op := OUpdateInfo (mkUpd None None None None (Some (mkRoy 18 share)) None).
+
+Definition c09_ex_info : cinfo :=
+  mkInfo 12 (mkTxt 1 12 false) (mkTxt 2 29 true) None (Some false) None (Some (mkRoy 18 50000000000000000)).
+Definition c09_ex_boot (ct : ctype) : state :=
+  match instantiate ct 1000 true [] 10 c09_ex_info with Ok s => s | Err => mkSt [] 0 [] (mkOwn None None None) c09_ex_info false 0 false false end.
+Definition c09_at (t who : N) : env := mkEnv t who [].
+
